@@ -228,6 +228,20 @@ theorem mem_mulVecEntries {rows : List (Row K)} {v : List (Entry K)} {x : Entry 
   obtain ⟨_, h2, h3, h4⟩ := mem_mulVec_aux hx
   exact ⟨by omega, by simpa using h3, h4⟩
 
+/-- exactly the non-zero row products are stored -/
+theorem mem_mulVecEntries_iff {rows : List (Row K)} {v : List (Entry K)} {x : Entry K} :
+    x ∈ mulVecEntries rows v ↔
+      x.idx < rows.length ∧ x.val = vecDot (rows.getD x.idx []) v ∧ x.val ≠ 0 := by
+  refine ⟨mem_mulVecEntries, fun ⟨_, h2, h3⟩ => ?_⟩
+  have hden : denE (mulVecEntries rows v) x.idx ≠ 0 := by
+    rw [den_mulVecEntries, ← h2]; exact h3
+  obtain ⟨e, he, hei⟩ := exists_mem_of_denE_ne_zero hden
+  have hval : e.val = x.val := by
+    rw [(mem_mulVecEntries he).2.1, hei, ← h2]
+  have : e = x := by
+    cases e; cases x; simp only at hei hval; rw [hei, hval]
+  exact this ▸ he
+
 theorem wf_mulVecEntries (rows : List (Row K)) (v : List (Entry K)) :
     WF rows.length (mulVecEntries rows v) :=
   ⟨sorted_mulVecEntries rows v, fun _ hx => (mem_mulVecEntries hx).1⟩
@@ -245,6 +259,7 @@ theorem mulVec_ok_inv {α : Type} [Scalar α] {m : CSM α} {v r : Vec α} (h : m
       simp [hsq, hd'] at h
   · simp [hsq] at h
 
+omit [Field K] [LinearOrder K] in
 theorem wf_getD {dim : Nat} {rows : List (Row K)} (h : ∀ r ∈ rows, WF dim r) (i : Nat) :
     WF dim (rows.getD i []) := by
   by_cases hi : i < rows.length
